@@ -291,13 +291,13 @@ let fnv_string (s : string) : string =
   fnv_hex !h
 
 let raw_summary (s : PagedReader.pr) (fo : BinNums.coq_N) (recs : BinNums.coq_N) (proto : Record.dtype list) : string =
-  let (s1, r) = QueueReader.raw_new fo recs proto s in
+  let (s1, r) = Prog.rrun (QueueReader.raw_new fo recs proto) s in
   match r with
   | Prelude.Ok it ->
     let buf = Buffer.create 256 in
     let count = ref 0 in
     let rec loop s it =
-      let (s', r) = QueueReader.raw_next it s in
+      let (s', r) = Prog.rrun (QueueReader.raw_next s.PagedReader.pr_log_size it) s in
       match r with
       | Prelude.Ok (it', QueueReader.Item p) ->
         if !count > 0 then Buffer.add_char buf ';';
@@ -335,13 +335,13 @@ let run_fw (toks : string list) : string =
        let st = ref s in
        let res_s r f = match r with
          | Prelude.Ok v -> f v | Prelude.Err k -> "e" ^ err_name k | Prelude.Panic -> "P" in
-       let (s1, r0) = FileBin.writer_init !st in
+       let (s1, r0) = Prog.wrun FileBin.writer_init !st in
        st := s1;
        outs := [res_s r0 (fun () -> "o")];
        let fin_ok = ref false in
        if r0 = Prelude.Ok () then begin
          Stdlib.List.iter (fun it ->
-             let (s2, r) = FileBin.item_write it !st in
+             let (s2, r) = Prog.wrun (FileBin.item_write it) !st in
              st := s2;
              (match r with Prelude.Ok o -> results := (it, o) :: !results | _ -> ());
              outs := res_s r (fun o -> match o with
@@ -349,7 +349,7 @@ let run_fw (toks : string list) : string =
                  | FileBin.OPc (o, n) -> Printf.sprintf "p%s:%s" (decimal_of_n o) (decimal_of_n n)) :: !outs) items;
          (match !xml with
           | Some x ->
-            let (s3, r) = FileBin.writer_finalize x !st in
+            let (s3, r) = Prog.wrun (FileBin.writer_finalize x) !st in
             st := s3; outs := res_s r (fun () -> "o") :: !outs;
             fin_ok := (r = Prelude.Ok ())
           | None -> ())
@@ -363,7 +363,7 @@ let run_fw (toks : string list) : string =
                match it, o with
                | FileBin.IPc (proto, _), FileBin.OPc (fo, n) -> " # pc " ^ raw_summary rs fo n proto
                | FileBin.IBlob _, FileBin.OBlob (bo, bl) ->
-                 let (_, r) = FileBin.blob_read bo bl rs in
+                 let (_, r) = Prog.rrun (FileBin.blob_read rs.PagedReader.pr_log_size bo bl) rs in
                  " # bl " ^ (match r with
                      | Prelude.Ok data -> Printf.sprintf "ok n=%d h=%s" (Stdlib.List.length data) (fnv_hex (fnv_bytes fnv_init data))
                      | Prelude.Err k -> "e" ^ err_name k
@@ -408,7 +408,7 @@ let run_blobrd (toks : string list) : string =
     let d0 = Device.dev_init (bytes_of_hex devhex) (fault_of fault) in
     (match FileBin.reader_open d0 with
      | (_, Prelude.Ok ((s, _), _)) ->
-       let (_, r) = FileBin.blob_read (n_of_decimal off) (n_of_decimal ln) s in
+       let (_, r) = Prog.rrun (FileBin.blob_read s.PagedReader.pr_log_size (n_of_decimal off) (n_of_decimal ln)) s in
        (match r with
         | Prelude.Ok data -> Printf.sprintf "ok n=%d h=%s" (Stdlib.List.length data) (fnv_hex (fnv_bytes fnv_init data))
         | Prelude.Err k -> "e" ^ err_name k
